@@ -35,6 +35,7 @@ def detect_and_initialize(ex, name, args):
 
 
 STATS = {}
+FULL_QUERY_NODE_LIMIT = 2500
 USE_CONE_MERGE = False   # substitution + rebuild is slower than the lockstep walk on heavily fragmented (ARX) terms
 _CONGR_CACHE = {}
 
@@ -120,6 +121,12 @@ def solve_neq(pairs, pc=(), timeout_s=120, assumptions=None, congruence=True):
                 STATS['congruence'] = STATS.get('congruence', 0) + 1
                 STATS['residuals'] = STATS.get('residuals', 0) + len(residual)
                 return 'unsat', None, time.time() - t0
+    if congruence:
+        # guard: a monolithic miter over a deep cryptographic DAG is known not to finish (measured); do not even build it
+        _names, _n = T.support([x for p in diff for x in p])
+        if _n > FULL_QUERY_NODE_LIMIT:
+            STATS['full_query_skipped'] = STATS.get('full_query_skipped', 0) + 1
+            return 'unknown', None, time.time() - t0
     if os.environ.get('VERIF_DEBUG') and congruence:
         print('DEBUG full query: pairs=%d pc=%s' % (len(diff), [(T.show(c)[:60], v) for c, v in pc]), flush=True)
     s = z3.Solver()
@@ -261,12 +268,47 @@ class Run:
             w = T.width(g)
             return [(T.extract(g, i, min(split, w - i)), T.extract(exp, i, min(split, w - i))) for i in range(0, w, split)]
         pc_core = tuple((c, v) for c, v in pc if T.support([c])[0] != {'cpu'})
+        if len(pc_core) >= 2:
+            # several data-dependent branch decisions: the combination may be infeasible (e.g. two consecutive carries)
+            fk = ('feas', pc_core)
+            if fk not in _CONGR_CACHE:
+                _CONGR_CACHE[fk] = pc_feasible(pc_core, 20)[0]
+            if _CONGR_CACHE[fk] == 'unsat':
+                ob = Obligation(name)
+                ob.key = key or name
+                ob.n_pairs = 1
+                ob.status = 'ok'
+                ob.detail = 'path infeasible'
+                return self.add(ob)
         ck = ('spec', got, pc_core)
         if ck in _CONGR_CACHE:
             ob = Obligation(name)
             ob.key = key or name
             ob.n_pairs, ob.n_identical, ob.status, ob.detail = _CONGR_CACHE[ck]
             return self.add(ob)
+        # path-condition rewriting: a branch condition that is a term node is a known constant on this path
+        pc_alias = {}
+        for c, v in pc:
+            nid = T.single_node(c)
+            if nid is not None and T.nodes[nid][0] != 'var':
+                pc_alias[nid] = T.const(1 if v else 0, 1)
+            elif len(c) == 1 and len(c[0][0]) == 1 and c[0][1] == 1 and c[0][0][0][1] == 0 and T.nodes[c[0][0][0][0]][1] == 1 \
+                    and T.nodes[c[0][0][0][0]][0] != 'var':
+                pc_alias[c[0][0][0][0]] = T.const(0 if v else 1, 1)
+        if pc_alias:
+            inner_spec = spec_fn
+
+            def spec_fn():
+                saved = dict(T.ALIAS_NODE)
+                T.ALIAS_NODE.update(pc_alias)
+                try:
+                    return inner_spec()
+                finally:
+                    for k in pc_alias:
+                        if k in saved:
+                            T.ALIAS_NODE[k] = saved[k]
+                        else:
+                            T.ALIAS_NODE.pop(k, None)
         exp = spec_fn()
         pairs = mkpairs(exp)
         if all(g == e for g, e in pairs):
@@ -301,6 +343,15 @@ class Run:
                 if os.environ.get('VERIF_DEBUG'):
                     print('DEBUG alias rebuild: lemmas=%d+%d queries=%d identical %d/%d  t=%.1fs' % (len(na), sum(len(v) for v in sa.values()), nq,
                           sum(1 for g, e in pairs2 if g == e), len(pairs2), time.time() - t0), flush=True)
+                if os.environ.get('VERIF_DEBUG') and not all(g == e for g, e in pairs2):
+                    ok_, res_ = congr.reduce_pairs([(g, e) for g, e in pairs2 if g != e], 0, pc)
+                    print('DEBUG after rebuild: walk ok=%s residuals=%d' % (ok_, len(res_)))
+                    for a_, b_ in res_[:8]:
+                        print('   ', T.show(a_)[:140], ' ==? ', T.show(b_)[:140])
+                        for v_ in (a_, b_):
+                            for sg_ in v_:
+                                for nid_, lo_ in sg_[0][:4]:
+                                    print('        node', nid_, str(T.nodes[nid_])[:260])
                 if all(g == e for g, e in pairs2):
                     ob = Obligation(name)
                     ob.key = key or name
